@@ -209,6 +209,7 @@ func init() {
 	searchStreams["c04"] = genC04
 	searchStreams["c04x"] = genC04Exhaustive
 	RegisterTool("c04cli", toolC04Cli)
+	RegisterTool("c04gate", toolC04Gate)
 }
 
 // ---- directed stream ---------------------------------------------------------------------------
@@ -315,15 +316,13 @@ func genC04(r *Rng, tier string, idx int, args map[string]string) []string {
 
 // ---- exhaustive enumeration of the gate: tag pool x command kinds x every option combination ------
 
-func genC04Exhaustive(r *Rng, tier string, idx int, args map[string]string) []string {
-	if idx != 0 {
-		return []string{"host " + Hx(database.VerifCurrentPlatform())}
-	}
+// c04Pool: tag lists x command kinds of the exhaustive enumeration, and the platform requests
+func c04Pool(tier string) (cmds []database.Command, plats [][]string) {
 	pool := append([][]string(nil), platPool...)
 	if tier == "thorough" {
 		singles := []string{"linux", "macos", "windows", "cross-platform", "darwin", "powershell", "bash", "LINUX", "Cross-Platform",
 			"plan9", "cmd", "unix", "zsh", "windows-cmd", "windows-powershell", "Windows10", "MacOS-arm", "linuxmint", "Kinux",
-			"LİNUX", "ＬＩＮＵＸ", "cross-platform ", "", "KELVIN", "Kinux", "DARWIN", "PowerShell", "a\xffb"}
+			"LİNUX", "ＬＩＮＵＸ", "cross-platform ", "", "KELVIN", "Kinux", "DARWIN", "PowerShell", "a\xffb"}
 		for _, s := range singles {
 			pool = append(pool, []string{s})
 		}
@@ -345,7 +344,6 @@ func genC04Exhaustive(r *Rng, tier string, idx int, args map[string]string) []st
 		{Command: "mytool a && b", Description: "and", Pipeline: false},
 		{Command: "mytool flag", Description: "flag", Pipeline: true},
 	}
-	var cmds []database.Command
 	for _, tags := range pool {
 		for _, k := range kinds {
 			c := k
@@ -353,11 +351,19 @@ func genC04Exhaustive(r *Rng, tier string, idx int, args map[string]string) []st
 			cmds = append(cmds, c)
 		}
 	}
-	var extra []string
-	plats := append([][]string{nil}, c04PlatformSets...)
+	plats = append([][]string{nil}, c04PlatformSets...)
 	if tier == "thorough" {
 		plats = append(plats, []string{"macos"}, []string{"Windows", "plan9"}, []string{"DARWIN"}, []string{"bash"}, []string{""})
 	}
+	return cmds, plats
+}
+
+func genC04Exhaustive(r *Rng, tier string, idx int, args map[string]string) []string {
+	if idx != 0 {
+		return []string{"host " + Hx(database.VerifCurrentPlatform())}
+	}
+	cmds, plats := c04Pool(tier)
+	var extra []string
 	for i := range cmds {
 		for m := 0; m < 8; m++ {
 			for _, pl := range plats {
@@ -370,6 +376,60 @@ func genC04Exhaustive(r *Rng, tier string, idx int, args map[string]string) []st
 		reqs = append(reqs, SearchReq{Query: "mytool", Opts: database.SearchOptions{Limit: len(cmds), Platforms: pl}})
 	}
 	return SearchCaseOps(cmds, reqs, extra)
+}
+
+// c04gate: the real gate (passesFilters through its verif accessor) against the property's predicate
+// above, over the same finite pool.  `admits_disallowed` is a direct violation of the property by the gate;
+// `rejects_allowed` means the gate is stricter than the documented meaning of the tags (no violation, but
+// the monitor's reading of the tags and the engine's have drifted apart).
+func toolC04Gate(args []string) int {
+	tier := "quick"
+	if len(args) > 0 {
+		tier = args[0]
+	}
+	cmds, plats := c04Pool(tier)
+	type row struct {
+		Command  string   `json:"command"`
+		Platform []string `json:"platform"`
+		Pipeline bool     `json:"pipeline_flag"`
+		Opts     string   `json:"options"`
+	}
+	var res struct {
+		Checked int   `json:"checked"`
+		Admits  []row `json:"admits_disallowed"`
+		Rejects []row `json:"rejects_allowed"`
+		NA, NR  int
+	}
+	host := c04Host()
+	for i := range cmds {
+		c := &cmds[i]
+		for m := 0; m < 8; m++ {
+			for _, pl := range plats {
+				o := database.SearchOptions{AllPlatforms: m&1 != 0, NoCrossPlatform: m&2 != 0, PipelineOnly: m&4 != 0, Platforms: pl}
+				ok, _ := c04Allowed(c, host, o)
+				want := ok && (!o.PipelineOnly || c04IsPipeline(c))
+				got := database.VerifPassesFilters(c, o)
+				res.Checked++
+				if got == want {
+					continue
+				}
+				r := row{c.Command, c.Platform, c.Pipeline, fmt.Sprintf("all=%v nocross=%v pipeonly=%v platforms=%q", o.AllPlatforms, o.NoCrossPlatform, o.PipelineOnly, pl)}
+				if got {
+					res.NA++
+					if len(res.Admits) < 5 {
+						res.Admits = append(res.Admits, r)
+					}
+				} else {
+					res.NR++
+					if len(res.Rejects) < 5 {
+						res.Rejects = append(res.Rejects, r)
+					}
+				}
+			}
+		}
+	}
+	json.NewEncoder(os.Stdout).Encode(res)
+	return 0
 }
 
 // ---- CLI stream: the real binary with --platform / --no-cross-platform / -a -----------------------
@@ -418,6 +478,24 @@ func toolC04Cli(args []string) int {
 		}
 		cmds = append(cmds, c)
 	}
+	// platform-bound entries with rare tool names: queries for them are answered by nothing the request
+	// allows, so the CLI's recovery search (substring scan of every command) is what would print them
+	directed := []struct {
+		cmd, desc string
+		plat      []string
+		query     string
+		flags     []string
+	}{
+		{"apt-get update", "refresh package lists entry-d0", []string{"linux"}, "apt-get", []string{"--platform", "windows", "--no-cross-platform"}},
+		{"ipconfig /all", "show adapters entry-d1", []string{"windows"}, "ipconfig", []string{"-p", "linux"}},
+		{"brew upgrade", "upgrade formulae entry-d2", []string{"macos"}, "brew upgrade", []string{}},
+		{"Get-ChildItem -Recurse", "enumerate items entry-d3", []string{"powershell"}, "Get-ChildItem", []string{"--platform", "macos"}},
+		{"zypper refresh", "refresh repos entry-d4", []string{"cross-platform"}, "zypper", []string{"--platform", "windows", "--no-cross-platform"}},
+		{"launchctl list", "list agents entry-d5", []string{"darwin"}, "launchctl", []string{"--no-cross-platform"}},
+	}
+	for _, d := range directed {
+		cmds = append(cmds, database.Command{Command: d.cmd, Description: d.desc, Keywords: []string{"entry"}, Platform: d.plat})
+	}
 	data, err := yaml.Marshal(cmds)
 	if err != nil {
 		fmt.Fprintln(os.Stderr, err)
@@ -445,6 +523,9 @@ func toolC04Cli(args []string) int {
 			q += " " + Pick(r, words)
 		case 1:
 			q = dropLetters(r, q) // typo fallback
+		}
+		if k < len(directed) { // the first runs aim at the recovery path
+			fl, q = directed[k].flags, directed[k].query
 		}
 		o := database.SearchOptions{}
 		for i := 0; i < len(fl); i++ {
